@@ -339,3 +339,26 @@ class SimDisk:
     def crash(self):
         """Process crash: nothing but the files survives (their content is whatever reached them)."""
         return dict(self.files)
+
+
+# --------------------------------------------------------------------------- the zone of the process (environment)
+
+
+class ProcessZone:
+    """The local time zone of the (simulated) process: TZ + time.tzset().  Naive datetimes mean wall-clock times to EAO and
+    must not pick up the zone of the machine the process happens to run on; a restarted process may run in another zone."""
+
+    def __init__(self):
+        import os
+        self.saved = os.environ.get("TZ")
+
+    def set(self, name):
+        import os, time
+        if name is None:
+            os.environ.pop("TZ", None)
+        else:
+            os.environ["TZ"] = name
+        time.tzset()
+
+    def restore(self):
+        self.set(self.saved)
